@@ -20,6 +20,7 @@ type WorldOpts struct {
 	AxesVary     bool     // the axes may be absent / mapped otherwise in the second and third mapping
 	Subs         int      // up to this many key sub-handlers (>=1)
 	Velocity0    bool     // allow velocity = 0 (meaning 64)
+	Overlap      bool     // an action key may also be listed as a note key of some mappings (the action wins: C02 + C04)
 	Twins        bool     // with >=2 sub-handlers: a second sub-handler may report a note key with the same code as a key of another one
 }
 
@@ -159,6 +160,24 @@ func genWorld(t *rapid.T, o WorldOpts) *Desc {
 		}
 	}
 
+	if o.Overlap {
+		for _, a := range d.Actions {
+			if rapid.IntRange(0, 4).Draw(t, "overlap") != 0 {
+				continue
+			}
+			for mi := range d.Mappings {
+				if rapid.IntRange(0, 2).Draw(t, "overlapInMapping") == 0 {
+					continue
+				}
+				m := &d.Mappings[mi]
+				m.Keys = append(m.Keys, KeyDef{Sub: "", Code: a.Code, Note: clampNote(center + rapid.SampledFrom(deltas).Draw(t, "overlapDelta"))})
+				if !m.hasKeySub("") {
+					m.KeySubs = append([]string{""}, m.KeySubs...)
+				}
+			}
+		}
+	}
+
 	if o.WideDefaults && rapid.IntRange(0, 2).Draw(t, "wide") > 0 {
 		d.Octave = rapid.IntRange(-10, 10).Draw(t, "defOctave")
 		d.Semitone = rapid.IntRange(-60, 60).Draw(t, "defSemitone")
@@ -196,6 +215,12 @@ func genWorld(t *rapid.T, o WorldOpts) *Desc {
 		for i := 0; i < n && i < len(perm); i++ {
 			d.Exit = append(d.Exit, cand[perm[i]])
 		}
+	}
+	// the same key may be listed twice (say by name and by number): the sequence is still complete when all its keys are down
+	if o.ExitMax > 0 && len(d.Exit) > 0 && len(d.Exit) < o.ExitMax && rapid.IntRange(0, 4).Draw(t, "exitDup") == 0 {
+		dup := d.Exit[rapid.IntRange(0, len(d.Exit)-1).Draw(t, "exitDupOf")]
+		pos := rapid.IntRange(0, len(d.Exit)).Draw(t, "exitDupPos")
+		d.Exit = append(d.Exit[:pos], append([]uint16{dup}, d.Exit[pos:]...)...)
 	}
 	if d.Exit == nil {
 		d.Exit = []uint16{}
@@ -275,8 +300,14 @@ const twinBit = 0x8000
 func newHistState(d *Desc) *histState {
 	h := &histState{d: d, down: map[uint16]bool{}, sub: map[uint16]string{}, actions: map[uint16]string{}, heldAct: map[string]bool{}}
 	seen := map[uint16]bool{}
+	for _, a := range d.Actions {
+		h.actions[a.Code] = a.Action
+	}
 	for _, m := range d.Mappings {
 		for _, k := range m.Keys {
+			if _, isAction := h.actions[k.Code]; isAction && k.Sub == "" {
+				continue // an action key that is also listed as a note key: it is driven as an action key
+			}
 			// handle of a key: its code; a second key with the same code on another sub-handler gets code|twinBit
 			hd := k.Code
 			if s, ok := h.sub[hd]; ok && s != k.Sub {
